@@ -112,6 +112,8 @@ type RPCSpec struct {
 	HandlerRecv []Op `json:"handler_recv,omitempty"`
 
 	// runtime
+	done     chan struct{} // closed when the client actor has finished
+	terminal atomic.Bool   // a terminal result has been returned to the application
 	ch       grpc.ClientConnInterface
 	ctx      context.Context
 	cancel   context.CancelFunc
@@ -155,6 +157,7 @@ type OpRec struct {
 	Extra    map[string]string `json:"extra,omitempty"`
 
 	rawErr error
+	pub    *OpRec // the copy stored in the log (actors mutate their private record freely; it is published under the log lock)
 }
 
 // Open reports whether the operation has been called and not yet returned.
@@ -183,13 +186,15 @@ func (l *OpLog) call(r *OpRec) *OpRec {
 	defer l.mu.Unlock()
 	r.CallSeq = l.seq.Add(1)
 	r.CallVT = time.Since(l.start)
-	l.recs = append(l.recs, r)
+	pub := new(OpRec)
+	*pub = *r
+	pub.pub = nil
+	r.pub = pub
+	l.recs = append(l.recs, pub)
 	return r
 }
 
 func (l *OpLog) ret(r *OpRec, err error) {
-	l.mu.Lock()
-	defer l.mu.Unlock()
 	r.rawErr = err
 	if err != nil {
 		r.Err = err.Error()
@@ -205,8 +210,15 @@ func (l *OpLog) ret(r *OpRec, err error) {
 			r.Code = codes.Unknown
 		}
 	}
+	l.mu.Lock()
+	defer l.mu.Unlock()
 	r.RetSeq = l.seq.Add(1)
 	r.RetVT = time.Since(l.start)
+	if r.pub != nil {
+		pub := r.pub
+		*pub = *r
+		pub.pub = nil
+	}
 }
 
 // Records returns a snapshot copy of the log.
@@ -517,7 +529,6 @@ func (s *svcImpl) runHandlerOps(spec *RPCSpec, actor string, ops []Op, hio *hand
 			rec.Code, rec.StatusMsg, rec.Details = op.Code, op.Msg, op.Details
 			log.call(rec)
 			log.ret(rec, nil)
-			rec.Code, rec.StatusMsg, rec.Details = op.Code, op.Msg, op.Details
 			return mkStatus(op)
 		case "ctxwait":
 			log.call(rec)
@@ -667,9 +678,11 @@ func (e *Env) StartRPC(parent context.Context, ch grpc.ClientConnInterface, spec
 	} else {
 		spec.ctx, spec.cancel = context.WithCancel(ctx)
 	}
+	spec.done = make(chan struct{})
 	e.wg.Add(1)
 	go func() {
 		defer e.wg.Done()
+		defer close(spec.done)
 		e.runClientOps(spec, "c:"+spec.ID, spec.Client)
 	}()
 }
@@ -767,7 +780,10 @@ func (e *Env) runClientOps(spec *RPCSpec, actor string, ops []Op) {
 		case "trailer":
 			log.call(rec)
 			rec.MD = spec.stream.Trailer().Copy()
-			e.captureOpts(rec, spec)
+			if spec.terminal.Load() {
+				// option targets may only be read after the completion signal
+				e.captureOpts(rec, spec)
+			}
 			log.ret(rec, nil)
 		case "cancel":
 			log.call(rec)
@@ -832,6 +848,8 @@ func (e *Env) clientRecv(spec *RPCSpec, rec *OpRec) error {
 	err := spec.stream.RecvMsg(&in)
 	if err == nil {
 		checkPayload(rec, spec.ID, dirResp, int(spec.cliRecvd.Add(1))-1, in.Value)
+	} else {
+		spec.terminal.Store(true)
 	}
 	e.Log.ret(rec, err)
 	return err
